@@ -350,7 +350,8 @@ def _(c):
             x = _coords(k * 31 + s * 7 + i)
             if fr == "Moon":
                 x = [v * (0.3 if j < 3 else 0.25) for j, v in enumerate(x)]
-            sv = StateVector(x, _date(k + s, scale) + timedelta(seconds=60.0 * i + 0.000001 * i), "cartesian", _frame(fr))
+            step = 60.0 if k % 4 else 0.25  # some ephemerides with several points within the same second
+            sv = StateVector(x, _date(k + s, scale) + timedelta(seconds=step * i + 0.000001 * i), "cartesian", _frame(fr))
             covs = c.integer("covs")
             if covs == 3 or (covs == 1 and i == 0) or (covs == 2 and i % 2 == 1):
                 cf = c.integer("covframe")
@@ -459,6 +460,10 @@ def _(c):
     c.ensure("decode_inverts_code", c.eq(read, x))
     read_default = decode({"n": types.SimpleNamespace(text=written, attrib={})}, "n", unit)
     c.ensure("default_unit_used_when_none_written", c.eq(read_default, x))
+    # the factor itself (SI value of one unit), against the definitions: km, s, degree, revolution per day of 86400 s
+    from beyond.io.ccsds.commons import units_dict
+    want = {"km": 1000.0, "km/s": 1000.0, "s": 1.0, "deg": math.pi / 180, "rev/day": 2 * math.pi / 86400.0, "rev/day**2": 1.0, "rev/day**3": 1.0, "1/ER": 1.0, "km**3/s**2": 1.0e9}
+    c.ensure("factor_is_the_si_value_of_the_unit", abs(float(units_dict[unit]) / want[unit] - 1) < 1e-15)
     c.ensure("unknown_unit_refused_reading", c.raises(CcsdsError, lambda: decode({"n": types.SimpleNamespace(text=written, attrib={"units": "furlong"})}, "n")))
     c.ensure("unknown_unit_refused_writing", c.raises(CcsdsError, lambda: code({"n": x}, "n", "furlong")))
 
